@@ -6,6 +6,7 @@ import (
 	"runtime"
 	"sort"
 	"strings"
+	"sync"
 	"time"
 )
 
@@ -42,11 +43,16 @@ type Census struct {
 	All []G
 }
 
-var censusBuf = make([]byte, 4<<20)
+var (
+	censusBuf = make([]byte, 4<<20)
+	censusMu  sync.Mutex
+)
 
 // TakeCensus snapshots every goroutine but the calling one. Only one
 // goroutine may take censuses at a time (they share a buffer).
 func TakeCensus() Census {
+	censusMu.Lock()
+	defer censusMu.Unlock()
 	n := runtime.Stack(censusBuf, true)
 	for n == len(censusBuf) {
 		censusBuf = make([]byte, 2*len(censusBuf))
